@@ -392,3 +392,104 @@ Proof.
     rewrite parse_directive_gen; auto.
     simpl. rewrite <- join_with_sp. rewrite !app_nil_r. reflexivity.
 Qed.
+
+Lemma nodupb_app_l : forall (a b : list str), nodupb (a ++ b) = true -> nodupb a = true.
+Proof.
+  induction a as [|x a IH]; intros b H; [reflexivity|].
+  simpl in H. apply andb_true_iff in H. destruct H as [H1 H2]. apply negb_true_iff in H1.
+  rewrite existsb_app in H1. apply orb_false_iff in H1. destruct H1 as [H1 _].
+  simpl. rewrite H1. simpl. apply (IH b H2).
+Qed.
+
+Lemma nodupb_mid : forall (a x b : list str), nodupb (a ++ x ++ b) = true -> nodupb (a ++ x) = true.
+Proof. intros a x b H. rewrite app_assoc in H. apply nodupb_app_l in H. exact H. Qed.
+
+Lemma pnames_cons : forall f fs, pnames (f :: fs) = pnames [f] ++ pnames fs.
+Proof. intros. unfold pnames. simpl. rewrite app_nil_r. reflexivity. Qed.
+Lemma vnames_cons : forall f fs, vnames (f :: fs) = vnames [f] ++ vnames fs.
+Proof. intros. unfold vnames. simpl. rewrite app_nil_r. reflexivity. Qed.
+
+Lemma keys_exp_param : forall c f, map fst (map keyed (exp_param c f)) = pnames [f].
+Proof. intros c f. destruct f; reflexivity. Qed.
+Lemma keys_exp_var : forall c f, map fst (map keyed (exp_var c f)) = vnames [f].
+Proof. intros c f. destruct f; reflexivity. Qed.
+
+Lemma fold_fields : forall c ra fs st, forallb wf_sfield fs = true ->
+  s_ptypes st = [] -> s_atypes st = [] -> s_rtype st = None ->
+  nodupb (map fst (s_params st) ++ pnames fs) = true -> nodupb (map fst (s_attrs st) ++ vnames fs) = true ->
+  fold_left (step c ra) (map ev_of fs) st = st_after c ra st fs.
+Proof.
+  intros c ra fs. induction fs as [|f fs IH]; intros st Hw Hpt Hat Hrt Hnp Hnv.
+  - destruct st as [D P PT A AT X R RT]. simpl in Hpt, Hat, Hrt. subst. unfold st_after. simpl. rewrite !app_nil_r. reflexivity.
+  - simpl in Hw. apply andb_true_iff in Hw. destruct Hw as [Hf Hfs].
+    rewrite pnames_cons in Hnp. rewrite vnames_cons in Hnv.
+    simpl map. simpl fold_left.
+    rewrite (step_field c ra st f Hf Hpt Hat Hrt (nodupb_mid _ _ _ Hnp) (nodupb_mid _ _ _ Hnv)).
+    rewrite IH; auto.
+    + unfold st_after. simpl.
+      change (flat_map (exp_param c) (f :: fs)) with (exp_param c f ++ flat_map (exp_param c) fs).
+      change (flat_map (exp_var c) (f :: fs)) with (exp_var c f ++ flat_map (exp_var c) fs).
+      change (flat_map exp_exc (f :: fs)) with (exp_exc f ++ flat_map exp_exc fs).
+      change (flat_map (exp_ret c ra) (f :: fs)) with (exp_ret c ra f ++ flat_map (exp_ret c ra) fs).
+      rewrite !map_app, <- !app_assoc. rewrite last_opt_app.
+      f_equal. destruct (last_opt (flat_map (exp_ret c ra) fs)); [reflexivity|].
+      destruct f; reflexivity.
+    + simpl s_params. rewrite map_app, keys_exp_param, <- app_assoc. exact Hnp.
+    + simpl s_attrs. rewrite map_app, keys_exp_var, <- app_assoc. exact Hnv.
+Qed.
+
+Lemma fold_desc : forall c ra ls st,
+  fold_left (step c ra) (map EDesc ls) st =
+  mkS (s_desc st ++ ls) (s_params st) (s_ptypes st) (s_attrs st) (s_atypes st) (s_excs st) (s_ret st) (s_rtype st).
+Proof.
+  intros c ra ls. induction ls as [|l ls IH]; intros st.
+  - destruct st. simpl. rewrite app_nil_r. reflexivity.
+  - simpl. rewrite IH. simpl. rewrite <- app_assoc. reflexivity.
+Qed.
+
+Lemma drop_blank_noop : forall ls, is_empty_line (hd [] ls) = false -> drop_blank ls = ls.
+Proof. destruct ls as [|l ls]; intros H; [reflexivity|]. simpl in *. rewrite H. reflexivity. Qed.
+
+Lemma rev_head_last : forall (ls : list str), ls <> [] -> hd [] (rev ls) = last ls [].
+Proof.
+  intros ls H. destruct (exists_last H) as [l' [x ->]]. rewrite rev_app_distr. simpl. rewrite last_last. reflexivity.
+Qed.
+
+Lemma strip_blank_text : forall text, text <> [] -> is_empty_line (hd [] text) = false -> is_empty_line (last text []) = false ->
+  strip_blank_lines (text ++ [[]]) = text.
+Proof.
+  intros text Hn Hh Hl. unfold strip_blank_lines.
+  assert (E1 : drop_blank (text ++ [[]]) = text ++ [[]]).
+  { apply drop_blank_noop. destruct text; [congruence|exact Hh]. }
+  rewrite E1. rewrite rev_app_distr.
+  change (rev [[]] ++ rev text) with (([] : str) :: rev text).
+  change (drop_blank (([] : str) :: rev text)) with (drop_blank (rev text)).
+  assert (E2 : drop_blank (rev text) = rev text).
+  { apply drop_blank_noop. rewrite rev_head_last by auto. exact Hl. }
+  rewrite E2. apply rev_involutive.
+Qed.
+
+Lemma map_snd_keyed : forall l, map snd (map keyed l) = l.
+Proof. induction l as [|p l IH]; [reflexivity|]. simpl. rewrite IH. reflexivity. Qed.
+
+Lemma sec_of_keyed : forall k l,
+  match map keyed l with [] => [] | ps => [GItems k None (map snd ps)] end = sec_of k l.
+Proof. intros k l. destruct l as [|p l]; [reflexivity|]. simpl. rewrite map_snd_keyed. reflexivity. Qed.
+
+Theorem sphinx_roundtrip_partial : forall c ra text fields, wf_sphinx text fields = true ->
+  parse_sphinx c ra (render_sphinx text fields) = expect_sphinx c ra text fields.
+Proof.
+  intros c ra text fields H. unfold wf_sphinx in H.
+  apply andb_true_iff in H. destruct H as [H Hnv]. apply andb_true_iff in H. destruct H as [H Hnp]. apply andb_true_iff in H. destruct H as [Ht Hf].
+  unfold wf_stext in Ht.
+  apply andb_true_iff in Ht. destruct Ht as [Ht Hlast]. apply andb_true_iff in Ht. destruct Ht as [Ht Hhd]. apply andb_true_iff in Ht. destruct Ht as [Hne Hlines].
+  apply negb_true_iff in Hlast, Hhd.
+  unfold parse_sphinx. rewrite events_render by auto.
+  rewrite fold_left_app. rewrite fold_desc. simpl s_desc.
+  rewrite fold_fields; auto.
+  unfold st_after, sections_of, expect_sphinx. simpl.
+  assert (Htn : text <> []) by (destruct text; [discriminate|discriminate]).
+  rewrite (strip_blank_text text Htn Hhd Hlast).
+  rewrite !sec_of_keyed.
+  destruct (last_opt (flat_map (exp_ret c ra) fields)); destruct (flat_map exp_exc fields); reflexivity.
+Qed.
